@@ -37,19 +37,19 @@ CHECKS = {
     "C09": ("exploration", "E5+E1+E2", "bounded-exhaustive enumeration of image lengths/contents/request orders against independent CRC, HEX writer and reassembly; BFS over request orders for a small image (always-on and smart-sleep node); preemption-bounded schedules of an update call against the poll thread answering requests",
             "Config response and blocks reassemble to image + <=128 bytes of 0xFF, CRC-16/MODBUS matches, echo fields correct, HEX loads exactly, for every enumerated length/content/order.",
             "independent CRC and Intel-HEX writer in mc/ref_codec.py; content families + affinity argument for the CRC"),
-    "C10": ("model_checking", "E1(+TLC)", "explicit-state BFS over OTA session histories against a reference session automaton; TLA+ model whose every TLC edge is replayed on the code (thorough)",
+    "C10": ("model_checking", "E1+E2(+TLC)", "explicit-state BFS over OTA session histories against a reference session automaton; preemption-bounded schedules of an update call against the poll thread answering requests; TLA+ model whose every TLC edge is replayed on the code",
             "Replies and session phase equal the reference automaton in every history up to the completed depth over 3 nodes, well- and malformed requests.",
             "R-MODEL session automaton; UNSPEC content for out-of-range index and foreign type/version"),
     "C11": ("model_checking", "E1", "explicit-state BFS; in every distinct state save as JSON and pickle with the real code and load into fresh gateways",
             "Type-strict projection of the restored tree equals the original in both formats and across formats; transient state never resurrected; every state up to the completed depth.",
             "real files in a scratch directory"),
-    "C12": ("fault_enumeration", "E3", "every file operation of a save as crash point (x loss modes x torn writes) and as failing operation, over prior disk configurations, both formats",
+    "C12": ("fault_enumeration", "E3", "every file operation of a save as crash point (x loss modes x torn writes) and as failing operation (once, and persistently for the rest of the save), over prior disk configurations, both formats",
             "Loaded state after every enumerated crash/fault is old or new, never anything else; next save succeeds.",
             "file model: per-file durable/volatile bytes at write-call granularity; directory operations atomic, ordered, durable"),
     "C13": ("fault_enumeration", "E3", "every truncation offset and zero-fill of main x backup variants, both formats",
             "start_persistence never raises and yields main's state, else backup's, else empty, for every enumerated damage pattern.",
             "damage model: truncation and zero-fill only"),
-    "C14": ("model_checking", "E1+E4", "explicit-state BFS with (failing) ticks at every position (and start_persistence() deferred behind traffic in two configurations); stop()+fresh start evaluated in every distinct state, threaded gateway and asyncio gateway on the virtual loop; asyncio application coroutines (all step sequences with and without yields to the loop) ended by stop()",
+    "C14": ("model_checking", "E1+E4+E2", "explicit-state BFS with (failing) ticks at every position (and start_persistence() deferred behind traffic in two configurations); stop()+fresh start evaluated in every distinct state, threaded gateway and asyncio gateway on the virtual loop; asyncio application coroutines (all step sequences with and without yields to the loop) ended by stop(); preemption-bounded schedules of threaded stop() against a message still being handled",
             "Projection before stop() equals projection after restart in every state up to the completed depth, 5 versions x 2 formats.",
             "real files, fake Timer"),
     "C15": ("fault_enumeration", "E3+E2+E4", "fault at every operation of every save in a tick sequence, and pairs of faults in two consecutive saves (sync and asyncio); every schedule up to the preemption bound of a save against one or two concurrent messages",
@@ -107,7 +107,7 @@ def main():
         },
         "engines": [
             {"name": "E1", "path": "mc/explore.py", "serves_properties": ["C01", "C04", "C05", "C06", "C07", "C08", "C10", "C11", "C14", "C17", "C19"], "kind_free_text": "explicit-state BFS over event histories replayed on real gateways, canonical state matching"},
-            {"name": "E2", "path": "mc/sched.py", "serves_properties": ["C01", "C06", "C08", "C09", "C15", "C16", "C20"], "kind_free_text": "controlled thread scheduler, preemption-bounded stateless exploration"},
+            {"name": "E2", "path": "mc/sched.py", "serves_properties": ["C01", "C06", "C08", "C09", "C10", "C14", "C15", "C16", "C20"], "kind_free_text": "controlled thread scheduler, preemption-bounded stateless exploration"},
             {"name": "E3", "path": "mc/fsfault.py", "serves_properties": ["C12", "C13", "C15"], "kind_free_text": "file-operation crash/fault enumerator over a real scratch directory"},
             {"name": "E4", "path": "mc/vloop.py", "serves_properties": ["C06", "C10", "C14", "C15", "C20"], "kind_free_text": "virtual asyncio loop, environment events chosen by the explorer"},
             {"name": "E5", "path": "mc/checks", "serves_properties": ["C02", "C03", "C09", "C17", "C18"], "kind_free_text": "bounded-exhaustive input enumeration against independent references"},
